@@ -1,10 +1,10 @@
 (* C16 - Buzzer: every sound is bounded, silent when it should be, follows the score.
    Nothing but statements, closed by [exact], each followed by Print Assumptions.
 
-   Model: Device/DBuzzer.v (the five emitter branches, line by line); [neg] is the value
-   static_cast<unsigned long> gives a negative argument (see DBuzzer.c_ulong) - every universally
-   quantified theorem holds for all [neg], all pins, all score tables unless it names the
-   generated one (Gen/Melodies.v, re-read from the source on every run). *)
+   Model: Device/DBuzzer.v (the five emitter branches, line by line, as repaired by the commit
+   "fix: buzzer ..." - see known_findings.d/C16.json, entries of kind "fixed").  Every universally
+   quantified theorem holds for all pins and all score tables unless it names the generated one
+   (Gen/Melodies.v, re-read from the source on every run). *)
 From Coq Require Import ZArith QArith Qround List Bool Sorted.
 From RV Require Import Base.Wire Base.Text Device.DBuzzer Device.BuzzerSpec Device.MelodySpec
   Gen.Melodies Proofs.BuzzerP Proofs.BuzzerP2.
@@ -12,67 +12,68 @@ Import ListNotations.
 Open Scope Z_scope.
 
 (* ---- a frequency <= 0 never starts a tone: per call, in any state (hence after any history) *)
-Theorem C16_nonpositive_never_tones : forall pin neg tbl st o,
-  nonpositive_call o = true -> tones (snd (dstep pin neg tbl st o)) = [].
+Theorem C16_nonpositive_never_tones : forall pin tbl st o,
+  nonpositive_call o = true -> tones (snd (dstep pin tbl st o)) = [].
 Proof. exact nonpositive_never_tones. Qed.
 Print Assumptions C16_nonpositive_never_tones.
 
 (* beep() without a frequency repeats the last one (initially default_frequency): silent if that is <= 0 *)
-Theorem C16_beep_default_nonpositive : forall pin neg tbl st on off times,
+Theorem C16_beep_default_nonpositive : forall pin tbl st on off times,
   qle (get_last_frequency st) q0 = true ->
-  tones (snd (dstep pin neg tbl st (Beep None on off times))) = [].
+  tones (snd (dstep pin tbl st (Beep None on off times))) = [].
 Proof. exact beep_default_nonpositive. Qed.
 Print Assumptions C16_beep_default_nonpositive.
 
 (* whole histories: a sequence of calls none of which has a positive frequency (a beep without argument
    repeating a last/default frequency <= 0) never starts a tone - and so never changes that last frequency *)
-Theorem C16_nonpositive_sequences : forall pin neg tbl ops st,
-  forallb (nonpositive_in (get_last_frequency st)) ops = true -> tones (snd (run pin neg tbl st ops)) = [].
+Theorem C16_nonpositive_sequences : forall pin tbl ops st,
+  forallb (nonpositive_in (get_last_frequency st)) ops = true -> tones (snd (run pin tbl st ops)) = [].
 Proof. exact nonpositive_sequences. Qed.
 Print Assumptions C16_nonpositive_sequences.
 
 (* in every call sequence whatsoever, each tone() the firmware issues has the rounded value of a
    strictly positive frequency, and every event is on the buzzer's own pin *)
-Theorem C16_every_tone_positive : forall pin neg tbl st ops,
+Theorem C16_every_tone_positive : forall pin tbl st ops,
   Forall (fun e => match e with
                    | Tone _ t => exists f, (0 < f)%Q /\ t = tone_of f
-                   | _ => True end) (snd (run pin neg tbl st ops)).
+                   | _ => True end) (snd (run pin tbl st ops)).
 Proof. exact every_tone_positive. Qed.
 Print Assumptions C16_every_tone_positive.
 
-Theorem C16_only_own_pin : forall pin neg tbl st ops,
-  Forall (on_pin pin) (snd (run pin neg tbl st ops)).
+Theorem C16_only_own_pin : forall pin tbl st ops,
+  Forall (on_pin pin) (snd (run pin tbl st ops)).
 Proof. exact only_own_pin. Qed.
 Print Assumptions C16_only_own_pin.
 
-(* ---- every call that has a duration leaves the pin silent and get_state() false.
-   FALSE as stated (beep with times <= 0 emits nothing); true inside [silent_guard]. *)
-Theorem C16_timed_calls_end_silent_partial : forall pin neg tbl default ops o,
+(* ---- every call that has a duration leaves the pin silent and get_state() false.  The only hypothesis
+   left, [silent_guard], is a property of the score table: the named melody has a non-empty score (true of
+   every name the parser accepts, C16_accepted_melody_in_guard); it holds by computation for play_tone,
+   beep and sweep. *)
+Theorem C16_timed_calls_end_silent : forall pin tbl default ops o,
   timed o = true -> silent_guard tbl o = true ->
-  get_state (fst (run pin neg tbl (init default) (ops ++ [o]))) = false /\
-  get_frequency (fst (run pin neg tbl (init default) (ops ++ [o]))) = q0 /\
-  sounding (snd (run pin neg tbl (init default) (ops ++ [o]))) = false.
+  get_state (fst (run pin tbl (init default) (ops ++ [o]))) = false /\
+  get_frequency (fst (run pin tbl (init default) (ops ++ [o]))) = q0 /\
+  sounding (snd (run pin tbl (init default) (ops ++ [o]))) = false.
 Proof. exact timed_calls_end_silent. Qed.
-Print Assumptions C16_timed_calls_end_silent_partial.
+Print Assumptions C16_timed_calls_end_silent.
 
-(* witness: play_tone(440) ; beep(times=0)  - the tone keeps sounding, get_state() stays true
-   (DESIGN.md names this C16_beep_zero_not_silent_refuted) *)
-Theorem C16_timed_calls_end_silent_refuted :
-  exists pin neg tbl default ops o,
-    timed o = true /\
-    get_state (fst (run pin neg tbl (init default) (ops ++ [o]))) = true /\
-    sounding (snd (run pin neg tbl (init default) (ops ++ [o]))) = true.
-Proof. exact timed_calls_end_silent_refuted. Qed.
-Print Assumptions C16_timed_calls_end_silent_refuted.
+(* formerly C16_beep_zero_not_silent_refuted (play_tone(440); beep(times=0) kept the tone): a beep with ANY
+   count, zero and negative included, silences the pin - after any history ... *)
+Theorem C16_beep_ends_silent : forall pin tbl default ops f on off times,
+  get_state (fst (run pin tbl (init default) (ops ++ [Beep f on off times]))) = false /\
+  get_frequency (fst (run pin tbl (init default) (ops ++ [Beep f on off times]))) = q0 /\
+  sounding (snd (run pin tbl (init default) (ops ++ [Beep f on off times]))) = false.
+Proof. exact (fun pin tbl default ops f on off times =>
+                timed_calls_end_silent pin tbl default ops (Beep f on off times) eq_refl eq_refl). Qed.
+Print Assumptions C16_beep_ends_silent.
 
-(* the same witness under the name DESIGN.md section 4 gives it *)
-Theorem C16_beep_zero_not_silent_refuted :
-  exists pin neg tbl default ops o,
-    timed o = true /\
-    get_state (fst (run pin neg tbl (init default) (ops ++ [o]))) = true /\
-    sounding (snd (run pin neg tbl (init default) (ops ++ [o]))) = true.
-Proof. exact timed_calls_end_silent_refuted. Qed.
-Print Assumptions C16_beep_zero_not_silent_refuted.
+(* ... and as a single step from any state, whatever the pin was doing before *)
+Theorem C16_beep_always_silent : forall pin tbl st f on off times b,
+  get_state (fst (dstep pin tbl st (Beep f on off times))) = false /\
+  get_frequency (fst (dstep pin tbl st (Beep f on off times))) = q0 /\
+  sounding_from b (snd (dstep pin tbl st (Beep f on off times))) = false.
+Proof. exact beep_always_silent. Qed.
+Print Assumptions C16_beep_always_silent.
 
 (* every melody name the parser accepts is inside the guard on the generated emitter table *)
 Theorem C16_accepted_melody_in_guard : forall name l,
@@ -83,81 +84,92 @@ Proof. exact accepted_melody_has_score. Qed.
 Print Assumptions C16_accepted_melody_in_guard.
 
 (* ---- beep: exactly n = max(0, trunc times) beeps; each is tone, delay(on) if on > 0, noTone;
-   delay(off) if off > 0 between consecutive beeps only.  With a non-positive target the same
-   skeleton is emitted with noTone in place of tone. *)
-Theorem C16_beep_counts : forall pin neg tbl st f on off times,
-  let target := clamp0 (match f with Some q => q | None => get_last_frequency st end) in
+   delay(off) if off > 0 between consecutive beeps only; one closing noTone after the loop.  The target is
+   the given (else the last) frequency, counted as 0 when below 1/2; a sounded target gives tone() >= 1.  With
+   a silent target the same skeleton is emitted with noTone in place of tone. *)
+Theorem C16_beep_counts : forall pin tbl st f on off times,
+  let target := clamph (match f with Some q => q | None => get_last_frequency st end) in
   let n := Z.to_nat (c_int times) in
-  let tr := snd (dstep pin neg tbl st (Beep f on off times)) in
+  let tr := snd (dstep pin tbl st (Beep f on off times)) in
   (qlt q0 target = true ->
-     tr = intercalate (dl (c_ulong neg off))
-            (repeat (beep_block pin (tone_of target) (c_ulong neg on)) n) /\
-     tones tr = repeat (tone_of target) n /\ notones tr = n) /\
+     tr = intercalate (dl (c_ulong off))
+            (repeat (beep_block pin (tone_of target) (c_ulong on)) n) ++ [NoTone pin] /\
+     tones tr = repeat (tone_of target) n /\ notones tr = S n /\ 1 <= tone_of target) /\
   (qlt q0 target = false ->
-     tr = intercalate (dl (c_ulong neg off)) (repeat (mute_block pin (c_ulong neg on)) n) /\
+     tr = intercalate (dl (c_ulong off)) (repeat (mute_block pin (c_ulong on)) n) ++ [NoTone pin] /\
      tones tr = []).
 Proof. exact beep_counts. Qed.
 Print Assumptions C16_beep_counts.
 
-(* ---- sweep.  The duration clause is partial: it carries the guards d >= 0 and floor(d) < 2^24, each with its
-   refutation below; the tone-count clauses state n = max(1, trunc steps) (refutation for steps <= 0 below). *)
-Theorem C16_sweep : forall pin neg tbl st s e d steps,
+Theorem C16_beep_target_given : forall f, qle qhalf f = true -> clamph f = f.
+Proof. exact beep_target_given. Qed.
+Print Assumptions C16_beep_target_given.
+
+(* ---- sweep.  n = max(1, trunc steps) (refutation for steps <= 0 below: F-C16-sweep-steps-clamped is still
+   a finding).  The duration clause is unconditional: it was partial (d >= 0, floor d < 2^24) before the repair
+   of F-C16-negative-runtime-duration and F-C16-sweep-float-duration-overshoot. *)
+Theorem C16_sweep : forall pin tbl st s e d steps,
   let n := Z.max 1 (c_int steps) in
-  let tr := snd (dstep pin neg tbl st (Sweep s e d steps)) in
+  let tr := snd (dstep pin tbl st (Sweep s e d steps)) in
   tones tr = map tone_of (positives (sweep_freqs (clamp0 s) (clamp0 e) n)) /\
   (length (tones tr) <= Z.to_nat n)%nat /\
-  (qlt q0 s = true -> qlt q0 e = true ->
+  Forall (fun t => 1 <= t) (tones tr) /\
+  (qle qhalf s = true -> qle qhalf e = true ->
      tones tr = map tone_of (sweep_freqs s e n) /\ length (tones tr) = Z.to_nat n) /\
   ((clamp0 s <= clamp0 e)%Q -> StronglySorted Z.le (tones tr)) /\
   ((clamp0 e <= clamp0 s)%Q -> StronglySorted Z.ge (tones tr)) /\
-  (1 < n -> qlt q0 s = true -> hd 0 (tones tr) = tone_of s) /\
-  (qlt q0 e = true -> last (tones tr) 0 = tone_of e) /\
-  (qle q0 d = true -> Qfloor d < 2 ^ 24 ->
-     delay_sum tr <= Qfloor d /\ (inject_Z (delay_sum tr) <= d)%Q) /\
+  (1 < n -> qle qhalf s = true -> hd 0 (tones tr) = tone_of s) /\
+  (qle qhalf e = true -> last (tones tr) 0 = tone_of e) /\
+  (delay_sum tr <= Z.max 0 (Qfloor d) /\ (qle q0 d = true -> (inject_Z (delay_sum tr) <= d)%Q)) /\
   sounding_from true tr = false.
 Proof. exact sweep_protocol. Qed.
 Print Assumptions C16_sweep.
 
-(* the delays one by one: every step waits floor(duration) / steps ms (integer division; delay(0) when the
-   quotient is 0 but the duration is not), and a zero duration never delays *)
-Theorem C16_sweep_delays : forall pin neg tbl st s e d steps,
-  qle q0 d = true -> Qfloor d < 2 ^ 24 ->
+(* the delays one by one: every step waits max(0, floor(duration)) / steps ms (integer division), and no delay()
+   is issued when that quotient is 0 *)
+Theorem C16_sweep_delays : forall pin tbl st s e d steps,
   let n := Z.max 1 (c_int steps) in
-  delays (snd (dstep pin neg tbl st (Sweep s e d steps))) =
-  if 0 <? Qfloor d then repeat (Qfloor d / n) (Z.to_nat n) else [].
+  let q := Z.max 0 (Qfloor d) / n in
+  delays (snd (dstep pin tbl st (Sweep s e d steps))) =
+  if 0 <? q then repeat q (Z.to_nat n) else [].
 Proof. exact sweep_delays. Qed.
 Print Assumptions C16_sweep_delays.
 
-(* the duration bound needs floor(d) < 2^24: the firmware converts the duration to a float before dividing it
-   by the step count (DBuzzer.f32z); sweep(440, 880, 16777219, steps=1) waits 16777220 ms *)
-Theorem C16_sweep_float_duration_refuted :
-  exists pin neg tbl st s e d steps,
-    qle q0 d = true /\
-    Qfloor d < delay_sum (snd (dstep pin neg tbl st (Sweep s e d steps))).
-Proof. exact sweep_float_duration_refuted. Qed.
-Print Assumptions C16_sweep_float_duration_refuted.
+(* formerly C16_sweep_float_duration_refuted (sweep(440, 880, 16777219, steps=1) waited 16777220 ms): for EVERY
+   duration the delays of a sweep never exceed it *)
+Theorem C16_sweep_duration_never_exceeded : forall pin tbl st s e d steps,
+  delay_sum (snd (dstep pin tbl st (Sweep s e d steps))) <= Z.max 0 (Qfloor d).
+Proof. exact (fun pin tbl st s e d steps =>
+                proj1 (proj1 (proj2 (proj2 (proj2 (proj2 (proj2 (proj2 (proj2 (proj2
+                  (sweep_protocol pin tbl st s e d steps))))))))))). Qed.
+Print Assumptions C16_sweep_duration_never_exceeded.
 
-(* the duration bound needs d >= 0: a negative run-time int duration wraps around *)
-Theorem C16_sweep_negative_duration_refuted :
-  exists pin tbl st s e d steps,
-    (d < 0)%Q /\
-    0 < delay_sum (snd (dstep pin (neg_int 32) tbl st (Sweep s e d steps))).
-Proof. exact sweep_negative_duration_refuted. Qed.
-Print Assumptions C16_sweep_negative_duration_refuted.
+(* formerly C16_sweep_negative_duration_refuted (a negative run-time duration wrapped around in the unsigned
+   cast): a negative duration counts as zero - at every duration site (c_ulong is the only way a duration
+   enters the model) *)
+Theorem C16_sweep_negative_duration : forall pin tbl st s e d steps,
+  (d < 0)%Q -> delay_sum (snd (dstep pin tbl st (Sweep s e d steps))) = 0.
+Proof. exact sweep_negative_duration. Qed.
+Print Assumptions C16_sweep_negative_duration.
+
+Theorem C16_duration_ms : forall d,
+  c_ulong d = Z.max 0 (Qfloor d) /\ 0 <= c_ulong d /\ (qle d q0 = true -> c_ulong d = 0).
+Proof. exact (fun d => conj (c_ulong_max d) (conj (c_ulong_ge0 d) (c_ulong_nonpos d))). Qed.
+Print Assumptions C16_duration_ms.
 
 (* "plays `steps` tones" fails for steps <= 0: the count is clamped to 1 (sweep(440, 880, 50, steps=0)) *)
 Theorem C16_sweep_nonpositive_steps_refuted :
-  exists pin neg tbl st s e d steps,
+  exists pin tbl st s e d steps,
     c_int steps <= 0 /\
-    length (tones (snd (dstep pin neg tbl st (Sweep s e d steps)))) = 1%nat.
+    length (tones (snd (dstep pin tbl st (Sweep s e d steps)))) = 1%nat.
 Proof. exact sweep_nonpositive_steps_refuted. Qed.
 Print Assumptions C16_sweep_nonpositive_steps_refuted.
 
 (* ---- melody: the generated emitter table plays the pinned score, note by note, at
    60000 / tempo ms per beat; tempo missing or <= 0 => the tune's default tempo *)
-Theorem C16_melody : forall pin neg st name tempo t0 seq,
+Theorem C16_melody : forall pin st name tempo t0 seq,
   tlookup name spec_melodies = Some (t0, seq) ->
-  snd (dstep pin neg emitter_melodies st (Melody name tempo)) =
+  snd (dstep pin emitter_melodies st (Melody name tempo)) =
   play_score pin (Qmake 60000 1 / eff_tempo t0 tempo)%Q seq.
 Proof. exact melody_plays_pinned_score. Qed.
 Print Assumptions C16_melody.
@@ -182,40 +194,41 @@ Print Assumptions C16_tables_agree.
 (* ---- getters: after every call sequence, get_state = "the pin is sounding", get_frequency = the
    frequency of the tone now sounding (0 when silent), get_last_frequency = the frequency of the
    last tone started (default_frequency while none has been) *)
-Theorem C16_getters : forall pin neg tbl default ops,
-  getters_ok default (fst (run pin neg tbl (init default) ops)) (snd (run pin neg tbl (init default) ops)).
+Theorem C16_getters : forall pin tbl default ops,
+  getters_ok default (fst (run pin tbl (init default) ops)) (snd (run pin tbl (init default) ops)).
 Proof. exact getters_all_sequences. Qed.
 Print Assumptions C16_getters.
 
-(* ---- play_tone: a positive frequency sounds tone(round f), for exactly delay(floor d) when a duration
-   is given, then noTone; a frequency <= 0 only issues noTone (and the delay).  State included. *)
-Theorem C16_play_tone : forall pin neg tbl st f d,
-  (qlt q0 f = true ->
-     dstep pin neg tbl st (PlayTone f None) = (mkbz true f f, [Tone pin (tone_of f)]) /\
-     dstep pin neg tbl st (PlayTone f (Some d)) =
-       (mkbz false q0 f, [Tone pin (tone_of f)] ++ dl (c_ulong neg d) ++ [NoTone pin])) /\
-  (qle f q0 = true ->
-     dstep pin neg tbl st (PlayTone f None) = (quiet st, [NoTone pin]) /\
-     dstep pin neg tbl st (PlayTone f (Some d)) = (quiet st, [NoTone pin] ++ dl (c_ulong neg d))).
+(* ---- play_tone: an audible frequency (>= 1/2) sounds tone(round f), for exactly delay(max(0, floor d)) when a
+   duration is given, then noTone; a frequency below 1/2 (zero and negative included) only issues noTone (and
+   the delay).  State included. *)
+Theorem C16_play_tone : forall pin tbl st f d,
+  (qle qhalf f = true ->
+     dstep pin tbl st (PlayTone f None) = (mkbz true f f, [Tone pin (tone_of f)]) /\
+     dstep pin tbl st (PlayTone f (Some d)) =
+       (mkbz false q0 f, [Tone pin (tone_of f)] ++ dl (c_ulong d) ++ [NoTone pin])) /\
+  (qlt f qhalf = true ->
+     dstep pin tbl st (PlayTone f None) = (quiet st, [NoTone pin]) /\
+     dstep pin tbl st (PlayTone f (Some d)) = (quiet st, [NoTone pin] ++ dl (c_ulong d))).
 Proof. exact play_tone_protocol. Qed.
 Print Assumptions C16_play_tone.
 
-(* ---- beep: with on/off >= 0 and n >= 1 beeps the call lasts n*on + (n-1)*off ms *)
-Theorem C16_beep_duration : forall pin neg tbl st f on off times,
-  let target := clamp0 (match f with Some q => q | None => get_last_frequency st end) in
+(* ---- beep: n >= 1 beeps of a sounded target last n*on + (n-1)*off ms (negative on/off count as zero) *)
+Theorem C16_beep_duration : forall pin tbl st f on off times,
+  let target := clamph (match f with Some q => q | None => get_last_frequency st end) in
   let n := c_int times in
-  let tr := snd (dstep pin neg tbl st (Beep f on off times)) in
-  qlt q0 target = true -> qle q0 on = true -> qle q0 off = true -> 1 <= n ->
-  delay_sum tr = n * Qfloor on + (n - 1) * Qfloor off.
+  let tr := snd (dstep pin tbl st (Beep f on off times)) in
+  qlt q0 target = true -> 1 <= n ->
+  delay_sum tr = n * c_ulong on + (n - 1) * c_ulong off.
 Proof. exact beep_duration. Qed.
 Print Assumptions C16_beep_duration.
 
 (* ---- melody, read off the trace: the tones are the tune's sounded notes in order, the delays are
    floor(beats * 60000/tempo) note by note, one noTone per note, total length <= beats * 60000/tempo *)
-Theorem C16_melody_notes : forall pin neg st name tempo t0 seq,
+Theorem C16_melody_notes : forall pin st name tempo t0 seq,
   tlookup name spec_melodies = Some (t0, seq) ->
   let beat := (Qmake 60000 1 / eff_tempo t0 tempo)%Q in
-  let tr := snd (dstep pin neg emitter_melodies st (Melody name tempo)) in
+  let tr := snd (dstep pin emitter_melodies st (Melody name tempo)) in
   tones tr = map tone_of (positives (map fst seq)) /\
   delays tr = note_delays beat seq /\
   notones tr = length seq /\
@@ -225,99 +238,103 @@ Print Assumptions C16_melody_notes.
 
 (* ---- get_last_frequency, exactly (not only up to rounding): after any call in any state it is the
    unrounded frequency of the last tone that call sounded, unchanged when the call sounded none *)
-Theorem C16_last_frequency_exact : forall pin neg tbl st o,
-  get_last_frequency (fst (dstep pin neg tbl st o)) = last_after tbl st o.
+Theorem C16_last_frequency_exact : forall pin tbl st o,
+  get_last_frequency (fst (dstep pin tbl st o)) = last_after tbl st o.
 Proof. exact last_frequency_exact. Qed.
 Print Assumptions C16_last_frequency_exact.
 
-Theorem C16_last_frequency_sweep : forall pin neg tbl st s e d steps,
-  qlt q0 e = true ->
-  (get_last_frequency (fst (dstep pin neg tbl st (Sweep s e d steps))) == e)%Q.
+Theorem C16_last_frequency_sweep : forall pin tbl st s e d steps,
+  qle qhalf e = true ->
+  (get_last_frequency (fst (dstep pin tbl st (Sweep s e d steps))) == e)%Q.
 Proof. exact last_frequency_sweep. Qed.
 Print Assumptions C16_last_frequency_sweep.
 
 (* ---- width of the tone() argument.  The model has no machine integers; this states the guard inside
    which that is harmless for the frequency: if default_frequency, every frequency argument and every
    note of the table are <= M then every tone() argument lies in [0, round M] - in any call sequence *)
-Theorem C16_tone_value_bounded : forall pin neg tbl M default ops,
+Theorem C16_tone_value_bounded : forall pin tbl M default ops,
   (0 <= M)%Q -> table_le M tbl = true -> qle default M = true -> forallb (freq_le M) ops = true ->
-  Forall (tone_le (tone_of M)) (snd (run pin neg tbl (init default) ops)).
+  Forall (tone_le (tone_of M)) (snd (run pin tbl (init default) ops)).
 Proof. exact tone_value_bounded. Qed.
 Print Assumptions C16_tone_value_bounded.
 
 (* on the generated table: frequencies <= 65535 never overflow the 16-bit unsigned int of an AVR *)
-Theorem C16_tone_fits_16_bits : forall pin neg default ops,
+Theorem C16_tone_fits_16_bits : forall pin default ops,
   qle default (Qmake 65535 1) = true -> forallb (freq_le (Qmake 65535 1)) ops = true ->
   Forall (fun e => match e with Tone _ t => 0 <= t < 2 ^ 16 | _ => True end)
-         (snd (run pin neg emitter_melodies (init default) ops)).
+         (snd (run pin emitter_melodies (init default) ops)).
 Proof. exact tone_fits_16_bits. Qed.
 Print Assumptions C16_tone_fits_16_bits.
 
 Theorem C16_tone_fits_16_bits_guard_needed :
-  exists pin neg default ops,
+  exists pin default ops,
     Exists (fun e => match e with Tone _ t => 2 ^ 16 <= t | _ => False end)
-           (snd (run pin neg emitter_melodies (init default) ops)).
+           (snd (run pin emitter_melodies (init default) ops)).
 Proof. exact tone_fits_16_bits_guard_needed. Qed.
 Print Assumptions C16_tone_fits_16_bits_guard_needed.
 
-(* ---- tone(pin, 0).  "A frequency <= 0 never starts a tone", read on the pin: FALSE - a frequency in
-   (0, 1/2) passes the firmware's `> 0.0f` tests and is rounded to tone(pin, 0) (play_tone(0.25)). *)
-Theorem C16_tone_zero_refuted :
-  exists pin neg tbl st f, (0 < f)%Q /\ snd (dstep pin neg tbl st (PlayTone f None)) = [Tone pin 0].
-Proof. exact tone_zero_refuted. Qed.
-Print Assumptions C16_tone_zero_refuted.
+(* ---- tone(pin, 0).  "A frequency <= 0 never starts a tone", read on the pin.  Formerly
+   C16_tone_zero_refuted (play_tone(0.25) issued tone(pin, 0)): a frequency below 1/2 is silence ... *)
+Theorem C16_subhalf_is_silent : forall pin tbl st f,
+  qlt f qhalf = true ->
+  snd (dstep pin tbl st (PlayTone f None)) = [NoTone pin] /\
+  get_state (fst (dstep pin tbl st (PlayTone f None))) = false /\
+  get_last_frequency (fst (dstep pin tbl st (PlayTone f None))) = get_last_frequency st.
+Proof. exact subhalf_is_silent. Qed.
+Print Assumptions C16_subhalf_is_silent.
 
 Theorem C16_tone_zero_iff : forall f, (0 < f)%Q -> (tone_of f = 0 <-> (f < 1 # 2)%Q).
 Proof. exact tone_zero_iff. Qed.
 Print Assumptions C16_tone_zero_iff.
 
-(* guard: no frequency argument in (0, 1/2) (a beep without argument: the last frequency; a sweep: both
-   ends <= 0 or both >= 1/2; a melody: the notes of its score) => every tone() argument is >= 1 *)
-Theorem C16_no_zero_tone_partial : forall pin neg tbl st o,
-  half_guard tbl (get_last_frequency st) o = true ->
-  Forall (fun t => 1 <= t) (tones (snd (dstep pin neg tbl st o))).
+(* ... and no call ever issues tone(pin, 0): every tone() argument is >= 1.  The one hypothesis concerns the
+   score table (the notes of a melody are not clamped by the firmware): no note in (0, 1/2) *)
+Theorem C16_no_zero_tone : forall pin tbl st o,
+  half_guard tbl o = true ->
+  Forall (fun t => 1 <= t) (tones (snd (dstep pin tbl st o))).
 Proof. exact no_zero_tone. Qed.
-Print Assumptions C16_no_zero_tone_partial.
+Print Assumptions C16_no_zero_tone.
 
-(* ... and for whole histories: default_frequency and every frequency argument outside (0, 1/2) (sweeps:
-   both ends <= 0 or both >= 1/2) => no call sequence ever issues tone(pin, 0) *)
-Theorem C16_no_zero_tone_sequences_partial : forall pin neg tbl default ops,
-  audible_arg default = true -> forallb (half_guard_static tbl) ops = true ->
-  Forall (fun t => 1 <= t) (tones (snd (run pin neg tbl (init default) ops))).
+Theorem C16_no_zero_tone_sequences : forall pin tbl st ops,
+  forallb (half_guard tbl) ops = true ->
+  Forall (fun t => 1 <= t) (tones (snd (run pin tbl st ops))).
 Proof. exact no_zero_tone_sequences. Qed.
-Print Assumptions C16_no_zero_tone_sequences_partial.
+Print Assumptions C16_no_zero_tone_sequences.
 
-Theorem C16_generated_melodies_in_half_guard :
-  forallb (fun kv => forallb (fun fb => audible_arg (fst fb)) (snd (snd kv))) emitter_melodies = true.
+Theorem C16_generated_melodies_in_half_guard : table_audible emitter_melodies = true.
 Proof. exact generated_melodies_audible. Qed.
 Print Assumptions C16_generated_melodies_in_half_guard.
 
-(* ---- every sound is bounded: with non-negative durations, the time a call spends in delay() is at most
-   what its arguments say (play_tone: duration_ms; beep: n*on + (n-1)*off, exactly; sweep: duration_ms;
-   melody: beats * 60000/tempo); an untimed play_tone and stop() never delay *)
-Theorem C16_every_call_bounded : forall pin neg st o,
-  nonneg_durations o = true ->
-  (inject_Z (delay_sum (snd (dstep pin neg emitter_melodies st o))) <= duration_bound emitter_melodies o)%Q.
+(* on the generated table, unconditionally: from any state, any call sequence, any arguments *)
+Theorem C16_no_zero_tone_generated : forall pin st ops,
+  Forall (fun t => 1 <= t) (tones (snd (run pin emitter_melodies st ops))).
+Proof. exact no_zero_tone_generated. Qed.
+Print Assumptions C16_no_zero_tone_generated.
+
+(* ---- every sound is bounded: for ALL arguments the time a call spends in delay() is at most what its
+   arguments say, a negative duration counting as zero (play_tone: duration_ms; beep: n*on + (n-1)*off, exactly;
+   sweep: duration_ms; melody: beats * 60000/tempo); an untimed play_tone and stop() never delay *)
+Theorem C16_every_call_bounded : forall pin st o,
+  (inject_Z (delay_sum (snd (dstep pin emitter_melodies st o))) <= duration_bound emitter_melodies o)%Q.
 Proof. exact every_call_bounded. Qed.
 Print Assumptions C16_every_call_bounded.
 
-Theorem C16_beep_duration_general : forall pin neg tbl st f on off times,
-  qle q0 on = true -> qle q0 off = true ->
+Theorem C16_beep_duration_general : forall pin tbl st f on off times,
   let n := Z.max 0 (c_int times) in
-  delay_sum (snd (dstep pin neg tbl st (Beep f on off times))) = n * Qfloor on + Z.max 0 (n - 1) * Qfloor off.
+  delay_sum (snd (dstep pin tbl st (Beep f on off times))) = n * c_ulong on + Z.max 0 (n - 1) * c_ulong off.
 Proof. exact beep_duration_general. Qed.
 Print Assumptions C16_beep_duration_general.
 
 (* ---- when is the pin left sounding?  After ANY call sequence on a fresh buzzer: only if the last call
-   that emitted code at all was an untimed play_tone(f) with f > 0 (everything after it is a beep with
-   trunc(times) < 1 or a melody without score - the calls of F-C16-beep-zero-keeps-tone); and then
+   that emitted code at all was an untimed play_tone(f) with f > 0 (everything after it is a melody without
+   score in the table - no call the parser accepts); and then
    get_frequency() = get_last_frequency() = f exactly.  Every other sound has been stopped. *)
-Theorem C16_sounding_characterised : forall pin neg tbl default ops,
-  sounding (snd (run pin neg tbl (init default) ops)) = true ->
+Theorem C16_sounding_characterised : forall pin tbl default ops,
+  sounding (snd (run pin tbl (init default) ops)) = true ->
   exists pre f post,
     ops = pre ++ [PlayTone f None] ++ post /\ (0 < f)%Q /\ forallb (noop_call tbl) post = true /\
-    get_frequency (fst (run pin neg tbl (init default) ops)) = f /\
-    get_last_frequency (fst (run pin neg tbl (init default) ops)) = f.
+    get_frequency (fst (run pin tbl (init default) ops)) = f /\
+    get_last_frequency (fst (run pin tbl (init default) ops)) = f.
 Proof. exact sounding_characterised. Qed.
 Print Assumptions C16_sounding_characterised.
 
@@ -326,34 +343,39 @@ Definition q (n : Z) : Q := Qmake n 1.
 
 (* a sounding state is reachable and the getters say so; a non-positive call is possible *)
 Example C16_nonvacuous_getters :
-  let r := run 8 neg_literal emitter_melodies (init (q 440)) [PlayTone (Qmake 2202 5) None] in
+  let r := run 8 emitter_melodies (init (q 440)) [PlayTone (Qmake 2202 5) None] in
   sounding (snd r) = true /\ get_state (fst r) = true /\ last_tone (snd r) = Some 440 /\
   nonpositive_call (PlayTone (q (-5)) (Some (q 50))) = true /\
-  snd (dstep 8 neg_literal emitter_melodies (fst r) (PlayTone (q (-5)) (Some (q 50)))) = [NoTone 8; Delay 50].
+  snd (dstep 8 emitter_melodies (fst r) (PlayTone (q (-5)) (Some (q 50)))) = [NoTone 8; Delay 50].
 Proof. vm_compute. repeat split. Qed.
 Print Assumptions C16_nonvacuous_getters.
 
-(* the guard of the timed-call theorem is satisfiable after a tone was left running *)
+(* the guard of the timed-call theorem is satisfiable after a tone was left running; the former witness of
+   F-C16-beep-zero-keeps-tone (play_tone(440); beep(times=0)) now ends with noTone and get_state() false *)
 Example C16_nonvacuous_timed :
   timed (Beep None (q 10) (q 5) (q 3)) = true /\
   silent_guard emitter_melodies (Beep None (q 10) (q 5) (q 3)) = true /\
-  snd (run 8 neg_literal emitter_melodies (init (q 440)) ([PlayTone (q 660) None] ++ [Beep None (q 10) (q 5) (q 3)]))
+  snd (run 8 emitter_melodies (init (q 440)) ([PlayTone (q 660) None] ++ [Beep None (q 10) (q 5) (q 3)]))
   = [Tone 8 660; Tone 8 660; Delay 10; NoTone 8; Delay 5; Tone 8 660; Delay 10; NoTone 8; Delay 5;
-     Tone 8 660; Delay 10; NoTone 8].
+     Tone 8 660; Delay 10; NoTone 8; NoTone 8] /\
+  run 8 emitter_melodies (init (q 440)) ([PlayTone (q 440) None] ++ [Beep None (q 100) (q 100) (q 0)])
+  = (mkbz false q0 (q 440), [Tone 8 440; NoTone 8]) /\
+  silent_guard emitter_melodies (Melody n_siren None) = true /\
+  silent_guard emitter_melodies (Melody [120] None) = false.
 Proof. vm_compute. repeat split. Qed.
 Print Assumptions C16_nonvacuous_timed.
 
 Example C16_nonvacuous_sweep :
-  let tr := snd (dstep 8 neg_literal emitter_melodies (init (q 440)) (Sweep (q 440) (q 880) (q 50) (q 5))) in
+  let tr := snd (dstep 8 emitter_melodies (init (q 440)) (Sweep (q 440) (q 880) (q 50) (q 5))) in
   tones tr = [440; 550; 660; 770; 880] /\ delay_sum tr = 50 /\
-  tones (snd (dstep 8 neg_literal emitter_melodies (init (q 440)) (Sweep (q 440) (q (-5)) (q 50) (q 5))))
+  tones (snd (dstep 8 emitter_melodies (init (q 440)) (Sweep (q 440) (q (-5)) (q 50) (q 5))))
   = [440; 330; 220; 110].
 Proof. vm_compute. repeat split. Qed.
 Print Assumptions C16_nonvacuous_sweep.
 
 Example C16_nonvacuous_melody :
   tlookup n_notify spec_melodies = Some (bpm 240, [(G5, quarter); (rest, quarter); (G5, half)]) /\
-  snd (dstep 8 neg_literal emitter_melodies (init (q 440)) (Melody n_notify (Some (q (-10)))))
+  snd (dstep 8 emitter_melodies (init (q 440)) (Melody n_notify (Some (q (-10)))))
   = [Tone 8 784; Delay 62; NoTone 8; NoTone 8; Delay 62; Tone 8 784; Delay 125; NoTone 8] /\
   parser_melody parser_melody_names [83;105;114;101;110] (* "Siren" *) = Some n_siren /\
   parser_melody parser_melody_names [98;101;101;112] (* "beep" *) = None.
@@ -361,10 +383,10 @@ Proof. vm_compute. repeat split. Qed.
 Print Assumptions C16_nonvacuous_melody.
 
 Example C16_nonvacuous_batch2 :
-  snd (dstep 8 neg_literal emitter_melodies (init (q 440)) (PlayTone (Qmake 881 2) (Some (Qmake 5 2))))
+  snd (dstep 8 emitter_melodies (init (q 440)) (PlayTone (Qmake 881 2) (Some (Qmake 5 2))))
     = [Tone 8 441; Delay 2; NoTone 8] /\
-  delay_sum (snd (dstep 8 neg_literal emitter_melodies (init (q 440)) (Beep None (q 10) (q 5) (q 3)))) = 40 /\
-  delays (snd (dstep 8 neg_literal emitter_melodies (init (q 440)) (Melody n_siren (Some (q 90)))))
+  delay_sum (snd (dstep 8 emitter_melodies (init (q 440)) (Beep None (q 10) (q 5) (q 3)))) = 40 /\
+  delays (snd (dstep 8 emitter_melodies (init (q 440)) (Melody n_siren (Some (q 90)))))
     = [500; 500; 500; 500; 500; 500] /\
   last_after emitter_melodies (init (q 440)) (Melody n_error None) = C4 /\
   (last_after emitter_melodies (init (q 440)) (Sweep (q 440) (q (-5)) (q 50) (q 5)) == q 110)%Q /\
@@ -376,35 +398,46 @@ Example C16_nonvacuous_bounded :
   freq_le (q 65535) (Sweep (q 440) (q 65535) (q 50) (q 5)) = true /\
   freq_le (q 65535) (PlayTone (q 65536) None) = false /\
   table_le (q 65535) emitter_melodies = true /\ table_le (q 500) emitter_melodies = false /\
-  tones (snd (dstep 8 neg_literal emitter_melodies (init (q 440)) (Sweep (q 440) (q 65535) (q 50) (q 3))))
+  tones (snd (dstep 8 emitter_melodies (init (q 440)) (Sweep (q 440) (q 65535) (q 50) (q 3))))
     = [440; 32988; 65535].
 Proof. vm_compute. repeat split. Qed.
 Print Assumptions C16_nonvacuous_bounded.
 
+(* the former witnesses of F-C16-subhalf-frequency-tone-zero: play_tone(0.25) is silent, and the sweep 1 -> 0
+   stops sounding once the interpolated frequency falls below 1/2 (it used to end with tone(8, 0)) *)
 Example C16_nonvacuous_half_guard :
-  half_guard emitter_melodies (q 440) (Sweep (q 1) (q 880) (q 50) (q 5)) = true /\
-  half_guard emitter_melodies (q 440) (Sweep (q 1) (q 0) (q 50) (q 5)) = false /\
-  half_guard emitter_melodies (Qmake 1 4) (Beep None (q 1) (q 1) (q 2)) = false /\
-  half_guard emitter_melodies (q 440) (Melody n_notify None) = true /\
-  tones (snd (dstep 8 neg_literal emitter_melodies (init (q 440)) (Sweep (q 1) (q 0) (q 50) (q 5)))) = [1; 1; 1; 0].
+  half_guard emitter_melodies (Melody n_notify None) = true /\
+  half_guard [([120], (q 100, [(Qmake 1 4, q 1)]))] (Melody [120] None) = false /\
+  dstep 8 emitter_melodies (init (q 440)) (PlayTone (Qmake 1 4) None) = (mkbz false q0 (q 440), [NoTone 8]) /\
+  tones (snd (dstep 8 emitter_melodies (init (q 440)) (Sweep (q 1) (q 0) (q 50) (q 5)))) = [1; 1; 1] /\
+  tones (snd (dstep 8 emitter_melodies (init (Qmake 1 4)) (Beep None (q 1) (q 1) (q 2)))) = [] /\
+  tones (snd (dstep 8 emitter_melodies (init (q 440)) (Beep (Some (Qmake 1 2)) (q 1) (q 1) (q 2)))) = [1; 1].
 Proof. vm_compute. repeat split. Qed.
 Print Assumptions C16_nonvacuous_half_guard.
 
+(* the former witnesses of F-C16-negative-runtime-duration and F-C16-sweep-float-duration-overshoot *)
 Example C16_nonvacuous_bounded_calls :
-  nonneg_durations (Melody n_siren (Some (q 90))) = true /\
   (duration_bound emitter_melodies (Melody n_siren (Some (q 90))) == q 3000)%Q /\
-  delay_sum (snd (dstep 8 neg_literal emitter_melodies (init (q 440)) (Melody n_siren (Some (q 90))))) = 3000 /\
-  nonneg_durations (Sweep (q 440) (q 880) (q 50) (q 3)) = true /\
-  delay_sum (snd (dstep 8 neg_literal emitter_melodies (init (q 440)) (Sweep (q 440) (q 880) (q 50) (q 3)))) = 48 /\
-  nonneg_durations (PlayTone (q 440) (Some (q (-1)))) = false.
+  delay_sum (snd (dstep 8 emitter_melodies (init (q 440)) (Melody n_siren (Some (q 90))))) = 3000 /\
+  delay_sum (snd (dstep 8 emitter_melodies (init (q 440)) (Sweep (q 440) (q 880) (q 50) (q 3)))) = 48 /\
+  snd (dstep 8 emitter_melodies (init (q 440)) (Sweep (q 440) (q 880) (q (-1)) (q 2)))
+    = [Tone 8 440; Tone 8 880; NoTone 8] /\
+  snd (dstep 8 emitter_melodies (init (q 440)) (Sweep (q 440) (q 880) (q 16777219) (q 1)))
+    = [Tone 8 880; Delay 16777219; NoTone 8] /\
+  delays (snd (dstep 8 emitter_melodies (init (q 440)) (Sweep (q 440) (q 880) (q 33554435) (q 2))))
+    = [16777217; 16777217] /\
+  snd (dstep 8 emitter_melodies (init (q 440)) (PlayTone (q 440) (Some (q (-1))))) = [Tone 8 440; NoTone 8] /\
+  (duration_bound emitter_melodies (PlayTone (q 440) (Some (q (-1)))) == 0)%Q /\
+  delay_sum (snd (dstep 8 emitter_melodies (init (q 440)) (Beep None (q (-1)) (Qmake 5 2) (q 3)))) = 4.
 Proof. vm_compute. repeat split. Qed.
 Print Assumptions C16_nonvacuous_bounded_calls.
 
 Example C16_nonvacuous_sounding :
-  let ops := [Sweep (q 440) (q 880) (q 50) (q 3); PlayTone (Qmake 881 2) None; Beep None (q 1) (q 1) (q 0)] in
-  sounding (snd (run 8 neg_literal emitter_melodies (init (q 440)) ops)) = true /\
-  noop_call emitter_melodies (Beep None (q 1) (q 1) (q 0)) = true /\
+  let ops := [Sweep (q 440) (q 880) (q 50) (q 3); PlayTone (Qmake 881 2) None; Melody [120] None] in
+  sounding (snd (run 8 emitter_melodies (init (q 440)) ops)) = true /\
+  noop_call emitter_melodies (Melody [120] None) = true /\
+  noop_call emitter_melodies (Beep None (q 1) (q 1) (q 0)) = false /\
   noop_call emitter_melodies (Melody n_siren None) = false /\
-  get_frequency (fst (run 8 neg_literal emitter_melodies (init (q 440)) ops)) = Qmake 881 2.
+  get_frequency (fst (run 8 emitter_melodies (init (q 440)) ops)) = Qmake 881 2.
 Proof. vm_compute. repeat split. Qed.
 Print Assumptions C16_nonvacuous_sounding.
